@@ -224,6 +224,46 @@ def run(ctx):
             os.remove(path)
             if it == 0:
                 ctx.sample(case)
+        # ---- large tables: more distinct values than any in-memory shortcut is likely to keep, with the shortest,
+        # the longest and the smallest / largest values late in sort and in insertion order
+        for size in ([130000] if ctx.quick else [20000, 70000, 130000, 300000]):
+            for rex in ([False] if ctx.quick else [False, True]):
+                path = os.path.join(work, 'large%d.db' % size)
+                conn = sqlite3.connect(path)
+                conn.execute('CREATE TABLE tbl (ref TEXT, n INTEGER, x REAL)')
+                rows = [('k%07d' % i, i + 5, i * 0.5 + 1.0) for i in range(size)]
+                rows += [('z', -3, -0.25), ('zz-the-longest-of-all-values', size * 7, size * 7.5)]
+                conn.executemany('INSERT INTO tbl VALUES (?, ?, ?)', rows)
+                conn.commit()
+                conn.close()
+                case = {'scenario': 'large table', 'distinct_values': size + 2, 'rex': rex,
+                        'rows': "('k%07d' % i, i + 5, i * 0.5 + 1.0) for i < size, then ('z', -3, -0.25) and "
+                                "('zz-the-longest-of-all-values', 7 * size, 7.5 * size)"}
+                ctx.count(repr(case), True)
+                ctx.bump('large_table.%d' % size)
+                SHARED[0] = False
+                try:
+                    cs = discover(path, rex)
+                    tdda = path + '.tdda'
+                    with open(tdda, 'w', encoding='utf-8') as f:
+                        f.write(cs.to_json())
+                    verdicts, failures = verify(path, tdda)
+                except Exception as e:
+                    ctx.fail(case, 'discover / verify of a large table raised %s: %s' % (type(e).__name__, str(e)[:200]))
+                    os.remove(path)
+                    continue
+                if failures:
+                    bad = {nm: [k for k, v in d.items() if v is False] for nm, d in verdicts.items()}
+                    ctx.fail(case, 'discovered constraints fail on their own (large) table: %r'
+                             % {k: v for k, v in bad.items() if v})
+                got = cs.to_dict()['fields']
+                want = {'ref': {'min_length': 1, 'max_length': 28}, 'n': {'min': -3, 'max': size * 7},
+                        'x': {'min': -0.25, 'max': size * 7.5}}
+                for nm, d in want.items():
+                    for k, v in d.items():
+                        if got.get(nm, {}).get(k) != v:
+                            ctx.fail(case, 'large table: discovered %s.%s = %r, the table has %r' % (nm, k, got.get(nm, {}).get(k), v))
+                os.remove(path)
     finally:
         shutil.rmtree(work, ignore_errors=True)
     ctx.cov['rule'] = ('SQLite tables of 1-4 columns over integer/real/text/varchar/boolean/datetime, 0-8 rows, null '
